@@ -22,7 +22,9 @@ if r.returncode != 0:
     r = sh('cd %s && patch -p1 --fuzz=3 --no-backup-if-mismatch -i %s' % (repo, patch))
 if r.returncode != 0:
     print('APPLY FAILED', r.stdout); sh('git -C /repo worktree remove --force %s' % repo); sys.exit(3)
-sh('rsync -a --exclude work --exclude harness/target --exclude .git --exclude evidence /verif/ %s/' % ver)
+os.makedirs(ver, exist_ok=True)
+sh('git -C /verif archive HEAD | tar -x -C %s' % ver)   # the last COMMITTED machinery (the working tree may be mid-edit)
+sh('rm -rf %s/evidence' % ver)
 os.makedirs(ver + '/evidence', exist_ok=True)
 sh('cp -al /verif/harness/target %s/harness/target' % ver)
 # reuse the spec-only caches (model checking results, emitted transition systems)
